@@ -28,6 +28,7 @@ import (
 )
 
 var rec *mon.Rec
+var dbgSteps, dbgDump []string
 
 // outstandingCap is the number of values a subscriber that does not read can
 // have outstanding before Broadcast blocks: the 10-slot buffer plus the one in
@@ -38,7 +39,8 @@ const outstandingCap = 11
 
 type recv struct {
 	v     int
-	stamp int64
+	pre   int64 // stamp taken before the receive operation was started
+	stamp int64 // stamp taken after the receive
 }
 
 type group struct {
@@ -167,10 +169,11 @@ func (w *world) startReader(s *sub) {
 				}
 			}
 			perturb(r)
+			pre := w.stamp()
 			select {
 			case v := <-s.ch:
 				w.mu.Lock()
-				s.got = append(s.got, recv{v, w.stamp()})
+				s.got = append(s.got, recv{v, pre, w.stamp()})
 				w.mu.Unlock()
 				n++
 				if n == s.leaveAfter {
@@ -1202,6 +1205,7 @@ func lockstep(w *world, rng *mon.RNG) {
 	m := &lmodel{nextV: 1, expRet: map[int]bool{}, expSub: map[*sub]bool{}, expClose: map[*closeRec]bool{}}
 	var all []*lsub
 	agree := true
+	how := "resumed"
 
 	newSub := func(gatedSub bool) *lsub {
 		kind := "prompt"
@@ -1293,6 +1297,7 @@ func lockstep(w *world, rng *mon.RNG) {
 			w.departWhileBlocked = true
 		}
 		w.cancelSub(ls.s, "root")
+		how = "left+resumed"
 		if m.parked != nil && m.parked.ls == ls {
 			// its Subscribe is still parked: it will subscribe with a cancelled context;
 			// the forwarder may or may not pass on values before it notices. Leave the model.
@@ -1489,22 +1494,22 @@ func lockstep(w *world, rng *mon.RNG) {
 	if m.hit12 {
 		rec.Count("lockstep.twelfth_outstanding_blocks", 1)
 	}
-	// resolve the environment: every gated reader resumes
-	w.step("unleash every gated reader")
+	// resolve the environment: every gated reader resumes, one at a time (a
+	// Close parked behind a blocked Broadcast runs as soon as that Broadcast
+	// completes, so what the other gated readers still get depends on the order)
 	for _, ls := range all {
-		if !ls.inf {
+		if ls.inf {
+			continue
+		}
+		if agree && !w.violated() {
+			unleash(ls)
+			settle()
+		} else {
+			w.step("unleash sub %d", ls.s.id)
 			w.unleash(ls.s)
-			ls.inf = true
-			m.deliver(ls)
-			m.advance()
 		}
 	}
-	if !agree {
-		finish(w, "resumed")
-		return
-	}
-	settle()
-	finish(w, "resumed")
+	finish(w, how)
 }
 
 // ---------------------------------------------------------------- the check
@@ -1512,6 +1517,10 @@ func lockstep(w *world, rng *mon.RNG) {
 func TestCheck(t *testing.T) {
 	rec = mon.Open("C11")
 	defer rec.Close()
+	// every mon.Quiesce snapshot allocates a 1 MB dump buffer; with the default
+	// GC pacing on a tiny live heap that is one collection per snapshot
+	debug.SetGCPercent(-1)
+	debug.SetMemoryLimit(128 << 20)
 	rec.Note("rule", "a case is one history against the real Broadcaster[int] inside a synctest bubble, recorded at the client boundary with one atomic logical clock and unique values (g<goroutine>-<id>). (race) 1-4 broadcasting goroutines (plus optionally one started later), 1-5 subscribers that are prompt / slow (read only when handed tokens, in small batches) / stalled (no tokens, >11 values outstanding, i.e. past the 10-slot buffer + the forwarder's hand) / leaving (cancel themselves after k receives, are cancelled by a racing goroutine, or are cancelled while a Broadcast is blocked), some subscribing late or two channels per Subscribe call, Close at the end / while a Broadcast is blocked / racing / in the middle of the resolution, seeded runtime.Gosched perturbation; the harness ends every stall by tokens or cancel, then demands progress (all Broadcast/Subscribe/Close calls returned, nobody on the mutex, by mon.Quiesce) and judges exactly-once, at-most-once, known values, acyclic precedence graph, nothing from a Broadcast called after Close returned. (lockstep) one operation at a time with a quiescence barrier in between, compared step by step with an exact reference (11 outstanding do not block, the 12th does; what is parked behind a blocked Broadcast runs after it), and judged by the same statement-level oracle at every step. Non-trivial = at least one value was delivered; distinct = distinct plan / step list.")
 	rec.Note("require", []string{
 		"judged", "deliveries", "exactly_once_pairs_demanded", "post_close_checked",
@@ -1573,19 +1582,25 @@ func runCase(t *testing.T, idx int, mode string) {
 	// evidence
 	w.mu.Lock()
 	deliveries := 0
-	for _, s := range w.subs {
-		deliveries += len(s.got)
-		if s.cancelBy == "self" {
-			rec.Count("hist.self_leaver_left_mid_delivery", 1)
-		}
-	}
-	overlap := false
 	var closeRet int64
 	for _, c := range w.closes {
 		if c.ret != 0 && (closeRet == 0 || c.ret < closeRet) {
 			closeRet = c.ret
 		}
 	}
+	lateRecv := 0
+	for _, s := range w.subs {
+		deliveries += len(s.got)
+		if s.cancelBy == "self" {
+			rec.Count("hist.self_leaver_left_mid_delivery", 1)
+		}
+		for _, g := range s.got {
+			if closeRet != 0 && g.pre > closeRet {
+				lateRecv++
+			}
+		}
+	}
+	overlap := false
 	afterClose := 0
 	for i, a := range w.bcs {
 		if closeRet != 0 && a.call > closeRet {
@@ -1601,6 +1616,12 @@ func runCase(t *testing.T, idx int, mode string) {
 	nbcs := len(w.bcs)
 	w.mu.Unlock()
 	rec.Count("deliveries", deliveries)
+	if lateRecv > 0 {
+		// a value that was already on its way when Close returned; the statement's last clause
+		// is judged only for values whose Broadcast was called after Close returned
+		rec.Count("recv_started_after_close_returned", lateRecv)
+		rec.Observe("a receive operation that was started after Close had returned obtained a value whose Broadcast had been called before (not judged)")
+	}
 	rec.Count("broadcasts", nbcs)
 	rec.Count("bcast_called_after_close_returned", afterClose)
 	rec.Count("exactly_once_pairs_demanded", w.demanded)
@@ -1619,6 +1640,7 @@ func runCase(t *testing.T, idx int, mode string) {
 	flag("hist.subscribe_parked_behind_blocked_broadcast", w.subscribeParked)
 	flag("hist.multi_broadcaster_overlap", overlap)
 	flag("hist."+mode, true)
+	dbgSteps, dbgDump = steps, w.dump()
 	rec.Case(idx, desc+" "+strings.Join(steps, ";"), deliveries > 0)
 	if rec.WantSample() && deliveries > 0 && idx%7 == 0 {
 		ev := w.dump()
